@@ -191,7 +191,30 @@ func runC10(t *kernel.Tape, opt core.Opts) *core.Outcome {
 		}
 		ds = append(ds, desig{id: "d:" + l.path, path: strings.Split(l.path, "/"), name: "n:" + l.path})
 	}
+	// one option that designates several targets at once (nested paths and top-level keys mixed
+	// in a drawn order)
+	type mdesig struct {
+		id    string
+		paths [][]string
+		names []string
+	}
+	var ms []mdesig
+	if len(ls) >= 2 && t.PlanBool(35) {
+		m := mdesig{id: "m:0"}
+		k := 2 + t.Plan(2)
+		for i := 0; i < k; i++ {
+			l := ls[t.Plan(len(ls))]
+			if !inSet(m.names, "n:"+l.path) {
+				m.names = append(m.names, "n:"+l.path)
+				m.paths = append(m.paths, strings.Split(l.path, "/"))
+			}
+		}
+		ms = append(ms, m)
+	}
 	o.Sample = p.Render() + fmt.Sprintf(" call=%s global=%v callHandlers=%d designated=%d", paradigmNames[call.Paradigm], useGlobal, nCall, len(ds))
+	for _, m := range ms {
+		o.Sample += fmt.Sprintf(" multi=%v", m.names)
+	}
 	o.PlanHash = planHash(o.Sample)
 	mr := RunModel(p, in)
 
@@ -223,6 +246,14 @@ func runC10(t *kernel.Tape, opt core.Opts) *core.Outcome {
 		} else {
 			call.Opts = append(call.Opts, compose.WithCallbacks(h).DesignateNodeWithPath(compose.NewNodePath(d.path...)))
 		}
+	}
+	for _, m := range ms {
+		h := env.recordingHandler(m.id, t.Plan(3))
+		var nps []*compose.NodePath
+		for _, pth := range m.paths {
+			nps = append(nps, compose.NewNodePath(pth...))
+		}
+		call.Opts = append(call.Opts, compose.WithCallbacks(h).DesignateNodeWithPath(nps...))
 	}
 	var res *CallResult
 	s.Go("caller0", func() { res = doCall(env, r, call) })
@@ -266,6 +297,11 @@ func runC10(t *kernel.Tape, opt core.Opts) *core.Outcome {
 		if strings.HasPrefix(ev.Handler, "d:") && ev.Name != "n:"+ev.Handler[2:] {
 			o.Violate("C10/designated-handler-fired-for-other-node", fmt.Sprintf("the handler designated to %s was invoked (%s) for %s", ev.Handler[2:], ev.Timing, ev.Name))
 		}
+		for _, m := range ms {
+			if ev.Handler == m.id && !inSet(m.names, ev.Name) {
+				o.Violate("C10/designated-handler-fired-for-other-node", fmt.Sprintf("the handler designated to %v was invoked (%s) for %s", m.names, ev.Timing, ev.Name))
+			}
+		}
 		if ev.Tag != "r0" {
 			o.Violate("C10/foreign-context", fmt.Sprintf("handler %s invoked with the context of %q", ev.Handler, ev.Tag))
 		}
@@ -294,6 +330,9 @@ func runC10(t *kernel.Tape, opt core.Opts) *core.Outcome {
 		}
 		for _, d := range ds {
 			check(d.id, []string{d.name})
+		}
+		for _, m := range ms {
+			check(m.id, m.names)
 		}
 		for k, n := range starts {
 			if expect[k.name] == 0 && !strings.HasPrefix(k.name, "n:") && k.name != "g:top" && n > 0 {
@@ -324,15 +363,15 @@ func runC10(t *kernel.Tape, opt core.Opts) *core.Outcome {
 
 func init() {
 	core.Register(&core.Profile{
-		ID: "C11", Engine: "graphsim", Quick: 2000, Thorough: 50000, ThoroughSeeds: 3, Run: runC11,
-		Rule:   "each run draws a stateful plan (all modes; value and stream pre/post handlers; node bodies calling ProcessState, also from stateless nested graphs; stateful nested graphs), every state access does read-yield-write inside the framework's lock and passes a mutual-exclusion monitor; two calls on the same compiled object; oracle: monitor never sees two tasks inside, final counter = number of invocations, one fresh state per run and per stateful nested execution, pre < node < post, values equal the reference model",
-		Real:   graphReal, Stub: graphStub,
+		RaceQuick: 200, RaceThorough: 3000, ID: "C11", Engine: "graphsim", Quick: 2000, Thorough: 50000, ThoroughSeeds: 3, Run: runC11,
+		Rule: "each run draws a stateful plan (all modes; value and stream pre/post handlers; node bodies calling ProcessState, also from stateless nested graphs; stateful nested graphs), every state access does read-yield-write inside the framework's lock and passes a mutual-exclusion monitor; two calls on the same compiled object; oracle: monitor never sees two tasks inside, final counter = number of invocations, one fresh state per run and per stateful nested execution, pre < node < post, values equal the reference model",
+		Real: graphReal, Stub: graphStub,
 		Faults: []string{"handlers and ProcessState bodies yielding inside the lock", "parallel nodes", "schedule perturbation"},
 	})
 	core.Register(&core.Profile{
-		ID: "C10", Engine: "graphsim", Quick: 2000, Thorough: 50000, ThoroughSeeds: 3, Run: runC10,
-		Rule:   "each run draws a plan (all modes, nested graphs, parallel nodes), a handler supply (global handler, 0-3 graph-level handlers each in its own call option, 0-3 handlers designated to nodes or node paths), per handler what it does with stream payloads (read all, read one chunk, close at once), optionally a failing node; oracle: per handler and execution unit exactly one start-type and one end-type callback, start first, the unit's RunInfo, designated handlers only for their node, start payload = an input of that node, graph data equal to the model",
-		Real:   graphReal, Stub: append([]string{"callback handlers (recording stubs; stream payloads read by handler tasks)"}, graphStub...),
+		RaceQuick: 200, RaceThorough: 3000, ID: "C10", Engine: "graphsim", Quick: 2000, Thorough: 50000, ThoroughSeeds: 3, Run: runC10,
+		Rule: "each run draws a plan (all modes, nested graphs, parallel nodes), a handler supply (global handler, 0-3 graph-level handlers each in its own call option, 0-3 handlers designated to nodes or node paths), per handler what it does with stream payloads (read all, read one chunk, close at once), optionally a failing node; oracle: per handler and execution unit exactly one start-type and one end-type callback, start first, the unit's RunInfo, designated handlers only for their node, start payload = an input of that node, graph data equal to the model",
+		Real: graphReal, Stub: append([]string{"callback handlers (recording stubs; stream payloads read by handler tasks)"}, graphStub...),
 		Faults: []string{"handlers closing or partially reading their stream copies", "parallel nodes", "node error/panic"},
 	})
 }
